@@ -81,12 +81,10 @@ func (dm *DMap) unlockKey(ctx context.Context, key string, token []byte) error {
 func (dm *DMap) deleteKeyIfValue(key string, value []byte) error {
 	hkey := partitions.HKey(dm.name, key)
 	part := dm.getPartitionByHKey(hkey, partitions.PRIMARY)
-	f, err := dm.loadOrCreateFragment(part)
+	f, err := dm.lockFragment(part)
 	if err != nil {
 		return err
 	}
-
-	f.Lock()
 	defer f.Unlock()
 
 	entry, err := f.storage.Get(hkey)
